@@ -52,6 +52,8 @@ def truthy : SVal → Bool
 
 def eqS (a b : SVal) : Bool :=
   match a, b with
+  | .re p, .j (.arr ys) => ys.any fun e => regexMatch p (textOf e)     -- any-match over an array result
+  | .j (.arr xs), .re p => xs.any fun e => regexMatch p (textOf e)
   | .re p, .j y => regexMatch p (textOf y)
   | .j x, .re p => regexMatch p (textOf x)
   | .re p, .re _ => regexMatch p ""
